@@ -198,6 +198,6 @@ pub fn def() -> CheckDef {
                dynamic, decoded by the harness's own reader) net/gross/initialized equal the signed/unsigned sums.  Non-trivial = history in which a \
                swap crossed an initialized tick that bounds >= 2 positions with liquidity; distinct = hash of (world spec, ops).",
         assumptions: vec!["nsvm runtime, shims and SPL processors as in DESIGN.md §5", "liquidity chosen by increase_liquidity_by_token_amounts is taken from the account (decided by C08)"],
-        subs: vec![sub("histories", 4000, 200_000, || history_strategy(false, false, 40), |c: &HistoryCase, l: &mut Local| check_history(c, l))],
+        subs: vec![sub("histories", 30_000, 600_000, || history_strategy(false, false, 40), |c: &HistoryCase, l: &mut Local| check_history(c, l))],
     }
 }
